@@ -51,6 +51,77 @@ def strip_rust(src):
     return "".join(out)
 
 
+
+INT_LIT = r"(?:0x[0-9a-fA-F_]+|0b[01_]+|0o[0-7_]+|\d[\d_]*)(?:_?(?:u8|u16|u32|u64|u128|usize|i8|i16|i32|i64|i128|isize))?"
+_MAXES = {"u8::MAX": 0xff, "u16::MAX": 0xffff, "u32::MAX": 0xffffffff, "u64::MAX": (1 << 64) - 1,
+          "usize::MAX": (1 << 64) - 1, "i16::MAX": 0x7fff, "i32::MAX": 0x7fffffff}
+
+
+def parse_int(tok):
+    tok = re.sub(r"_?(?:u8|u16|u32|u64|u128|usize|i8|i16|i32|i64|i128|isize)$", "", tok.strip())
+    return int(tok.replace("_", ""), 0)
+
+
+def const_env(src):
+    """name -> integer value of every `const/static/let NAME[: T] = <integer expression>;` of the file whose right
+    hand side can be evaluated (literals in any base, other such names, + - * << >> | & ^ and parentheses, `as T`
+    casts, `T::MAX`)."""
+    raw = {}
+    for m in re.finditer(r"\b(?:const|static|let)\s+(?:mut\s+)?([A-Za-z_]\w*)\s*(?::\s*[^=;]+?)?=\s*([^;{}]+);", src):
+        raw.setdefault(m.group(1), m.group(2).strip())
+    env = {}
+
+    def ev(expr, depth=0):
+        if depth > 8:
+            raise ValueError("too deep")
+        e = re.sub(r"\bas\s+\w+", "", expr)
+        for k, v in _MAXES.items():
+            e = e.replace(k, str(v))
+        e = re.sub(r"\b(?:u8|u16|u32|u64|usize|i32|i64)::from\s*\(", "(", e)
+
+        def lit(mm):
+            return str(parse_int(mm.group(0)))
+        e = re.sub(INT_LIT, lit, e)
+
+        def name(mm):
+            n = mm.group(0)
+            if n in env:
+                return str(env[n])
+            if n in raw and n not in expr.split("=")[0:0]:
+                return str(ev(raw[n], depth + 1))
+            raise ValueError("unknown name " + n)
+        e = re.sub(r"[A-Za-z_]\w*", name, e)
+        if not re.fullmatch(r"[0-9\s()+\-*|&^<>~]+", e):
+            raise ValueError("not an integer expression: " + expr)
+        return int(eval(e, {"__builtins__": {}}, {}))  # digits and operators only
+    for n, rhs in raw.items():
+        try:
+            env[n] = ev(rhs)
+        except Exception:
+            pass
+    return env
+
+
+def int_value(tok, env):
+    """an argument that is an integer literal, a known constant or a simple expression over them"""
+    tok = tok.strip()
+    try:
+        return parse_int(tok)
+    except Exception:
+        pass
+    if tok in env:
+        return env[tok]
+    e = tok
+    for k, v in _MAXES.items():
+        e = e.replace(k, str(v))
+    e = re.sub(r"\bas\s+\w+", "", e)
+    e = re.sub(INT_LIT, lambda mm: str(parse_int(mm.group(0))), e)
+    e = re.sub(r"[A-Za-z_]\w*", lambda mm: str(env[mm.group(0)]) if mm.group(0) in env else mm.group(0), e)
+    if re.fullmatch(r"[0-9\s()+\-*|&^<>~]+", e):
+        return int(eval(e, {"__builtins__": {}}, {}))
+    raise ValueError("cannot evaluate " + tok)
+
+
 def block_at(src, open_idx):
     """Text of the brace block that opens at src[open_idx] == '{' (inclusive)."""
     depth = 0
@@ -131,13 +202,19 @@ def order_of(body, alive_pats, avail_pats):
     return ["alive", "avail"] if a < u else ["avail", "alive"]
 
 
-ALIVE = [r"strong_count", r"\.refcount\(\)", r"\.closed\(\)"]
+ALIVE0 = [r"strong_count", r"\.refcount\(\)", r"\.closed\(\)"]
+ALIVE = list(ALIVE0)
 
 
 def gen_waits():
     src = strip_rust(open(os.path.join(REPO, "src", "stream.rs")).read())
     bodies = fn_bodies(src)
     progs = {}
+    # a private helper whose body reads the reference count is a liveness read where it is called
+    global ALIVE
+    ALIVE = ALIVE0 + [r"\.%s\s*\(" % n for (_, n, fb) in bodies
+                      if re.search(r"strong_count", fb) and n not in ("wait_for_read", "wait_for_write", "eof", "wait", "closed")
+                      and len(fb) < 200]
     b = find_fn(bodies, r"^<T: Copy> ReadStream<T>$", "wait_for_read")
     progs["readWait"] = order_of(b, ALIVE, [r"\.wait_for_read\("])
     b = find_fn(bodies, r"^<T: Copy> WriteStream<T>$", "wait_for_write")
@@ -202,25 +279,79 @@ def gen_conc():
     return "Conc.lean", "\n".join(lines)
 
 
+def probe_hdlc():
+    """Black-box constants of the compiled deframer (harness `rrh hdlc --probe-consts`): the flag octet it
+    synchronises on and, for three payloads, the 16-bit frame check sequence it accepts."""
+    import subprocess
+    here = os.path.dirname(os.path.dirname(os.path.abspath(__file__)))
+    rrh = os.environ.get("RRH_BIN") or os.path.join(here, "harness", "target", "release", "rrh")
+    p = subprocess.run([rrh, "hdlc", "--probe-consts", "1"], stdout=subprocess.PIPE, stderr=subprocess.PIPE, text=True, timeout=300)
+    vals = {}
+    for line in p.stdout.split("\n"):
+        m = re.match(r"#\s*probe\s+(\w+)\s+(.*)", line)
+        if m:
+            vals[m.group(1)] = m.group(2).strip()
+    return vals
+
+
+def crc_fold(tab, init, data):
+    c = init
+    for b in data:
+        c = (c >> 8) ^ tab[(c ^ b) & 0xff]
+    return c
+
+
 def gen_hdlc():
     raw = open(os.path.join(REPO, "src", "hdlc_deframer.rs")).read()
     src = strip_rust(raw)
-    m = re.search(r"const\s+FCSTAB\s*:\s*&\[u16\]\s*=\s*&\[(.*?)\];", src, flags=re.S)
+    m = re.search(r"(?:const|static)\s+FCSTAB\s*:\s*[^=]*=\s*&?\s*\[(.*?)\]\s*;", src, flags=re.S)
     if not m:
         raise SystemExit("extract: FCSTAB not found in hdlc_deframer.rs")
-    vals = [int(x, 16) for x in re.findall(r"0x([0-9a-fA-F]+)", m.group(1))]
-    # the flag the deframer searches for (comparison in the Unsynced arm)
-    bodies = fn_bodies(src)
-    upd = find_fn(bodies, r"HdlcDeframer$", "update_state")
-    fm = re.search(r"==\s*0x([0-9a-fA-F]+)", upd)
-    if not fm:
-        raise SystemExit("extract: flag comparison not found in update_state")
-    flag = int(fm.group(1), 16)
-    crc = find_fn_free(src, "calc_crc")
-    im = re.search(r"fold\(\s*0x([0-9a-fA-F]+)u16", crc)
-    xm = re.search(r"\^\s*0x([0-9a-fA-F]+)\s*\}?\s*$", crc.strip().rstrip("}").strip())
-    init = int(im.group(1), 16) if im else -1
-    xorout = int(xm.group(1), 16) if xm else -1
+    vals = [parse_int(x) for x in re.findall(INT_LIT, m.group(1))]
+    env = const_env(src)
+    # The flag the deframer synchronises on, the CRC's initial value and final xor: taken from the COMPILED code by
+    # black-box probing (the flag: which delimiter octet makes a frame come out; init/xorout: solved from the check
+    # sequences the deframer accepts, with the table above) - independent of how the source spells them ...
+    flag = init = xorout = None
+    try:
+        pr = probe_hdlc()
+        flag = int(pr["flag"])
+        if len(vals) == 256:
+            obs = []
+            for item in pr["fcs"].split(";"):
+                payload, f = item.split("=")
+                obs.append(([int(x) for x in payload.split(",") if x], int(f)))
+            sol = [i for i in range(65536)
+                   if all(crc_fold(vals, i, p) ^ crc_fold(vals, i, obs[0][0]) == f ^ obs[0][1] for p, f in obs)]
+            # the byte step of this CRC has a non-zero fixed point d (0xf80f), so (init, xorout) and
+            # (init ^ d, xorout ^ d) are the same function: at most such a pair comes out; the customary
+            # spelling (0xffff) is preferred
+            if 1 <= len(sol) <= 2:
+                init = 0xffff if 0xffff in sol else sol[0]
+                xorout = crc_fold(vals, init, obs[0][0]) ^ obs[0][1]
+    except Exception:
+        pass
+    # ... and, only if the harness binary is not there (stand-alone use of this script), from the text as RFC 1662
+    # code writes them (hex literals or upper-case constants)
+    if flag is None or init is None or xorout is None:
+        try:
+            bodies = fn_bodies(src)
+            upd = find_fn(bodies, r"HdlcDeframer$", "update_state")
+            fm = re.search(r"[=!]=\s*(0x[0-9a-fA-F_]+|0b[01_]+|[A-Z_][A-Z0-9_]*)\b", upd)
+            if fm and flag is None:
+                flag = int_value(fm.group(1), env)
+            crc = [b for n, bs in all_fn_bodies(src).items() if n == "calc_crc" for b in bs]
+            if len(crc) == 1:
+                im = re.search(r"fold\(\s*(%s|[A-Za-z_][\w:]*)" % INT_LIT, crc[0])
+                xm = re.search(r"\^\s*(%s|[A-Za-z_][\w:]*)\s*\}?\s*$" % INT_LIT, crc[0].strip().rstrip("}").strip())
+                if im and init is None:
+                    init = int_value(im.group(1), env)
+                if xm and xorout is None:
+                    xorout = int_value(xm.group(1), env)
+        except Exception:
+            pass
+    if flag is None or init is None or xorout is None:
+        raise SystemExit("extract: flag / CRC constants not found in hdlc_deframer.rs")
     lines = ["/-! GENERATED by tools/extract.py from /repo/src/hdlc_deframer.rs on every run. Do not edit. -/",
              "namespace RR.Gen", "",
              "def fcstab : List Nat := [" + ", ".join(str(v) for v in vals) + "]", "",
@@ -290,12 +421,12 @@ def gen_filesink():
         m = re.search(pat, body)
         return bool(m and m.group(1))
 
-    work = find_fn(bodies, r"Block for FileSink<T>", "work")
+    work = inline_helpers(src, find_fn(bodies, r"Block for FileSink<T>", "work"), skip=("work", "new"))
     order = order_in(work, [("write", r"\.write_all\s*\("), ("flush", r"\.flush\s*\("), ("consume", r"\.consume\s*\(")])
     out.append("def fileSinkWork : List Ev := [%s]" % ", ".join("." + x for x in order))
     out.append("def fileSinkWorkChecked : List (Ev × Bool) := [%s]"
                % ", ".join("(.%s, %s)" % (x, str(checked(work, x)).lower()) for x in order))
-    work = find_fn(bodies, r"Block for NoCopyFileSink<T>", "work")
+    work = inline_helpers(src, find_fn(bodies, r"Block for NoCopyFileSink<T>", "work"), skip=("work", "new"))
     order = order_in(work, [("consume", r"\.pop\s*\("), ("write", r"\.write_all\s*\("), ("flush", r"\.flush\s*\(")])
     out.append("def ncFileSinkWork : List Ev := [%s]" % ", ".join("." + x for x in order))
     out.append("def ncFileSinkWorkChecked : List (Ev × Bool) := [%s]"
@@ -335,32 +466,39 @@ def gen_e2e():
             if n == "FftFilter" and main[pos:pos + 14] == "FftFilterFloat":
                 continue
             seq.append(n)
+        if "Hilbert" in seq:
+            # what precedes the Hilbert transformer is the alternative (SDR) input path, built in mutually exclusive
+            # branches whose textual order means nothing: listed sorted
+            k = seq.index("Hilbert")
+            seq = sorted(seq[:k]) + seq[k:]
         out.append("def %sChain : List String := [%s]" % (lname, ", ".join('"%s"' % n for n in seq)))
-        m = re.search(r"HdlcDeframer::new\(\s*\w+\s*,\s*(\d+)\s*,\s*(\d+)\s*\)", main)
+        env = const_env(src)
+        arg = r"\s*([^,()]+(?:\([^()]*\)[^,()]*)*)\s*"
+        m = re.search(r"HdlcDeframer::new\(\s*\w+\s*," + arg + "," + arg + r"\)", main)
         if not m:
             raise SystemExit("extract: HdlcDeframer::new(prev, min, max) not found in " + fname)
-        out.append(f"def {lname}HdlcMin : Nat := {m.group(1)}")
-        out.append(f"def {lname}HdlcMax : Nat := {m.group(2)}")
-        m = re.search(r"Descrambler::new\(\s*\w+\s*,\s*(0x[0-9a-fA-F]+|\d+)\s*,\s*(\d+)\s*,\s*(\d+)\s*\)", main)
+        out.append(f"def {lname}HdlcMin : Nat := {int_value(m.group(1), env)}")
+        out.append(f"def {lname}HdlcMax : Nat := {int_value(m.group(2), env)}")
+        m = re.search(r"Descrambler::new\(\s*\w+\s*," + arg + "," + arg + "," + arg + r"\)", main)
         if m:
-            out.append(f"def {lname}DescramblerMask : Nat := {int(m.group(1), 0)}")
-            out.append(f"def {lname}DescramblerSeed : Nat := {m.group(2)}")
-            out.append(f"def {lname}DescramblerLen : Nat := {m.group(3)}")
-        m = re.search(r"Hilbert::new\(\s*\w+\s*,\s*(\d+)", main)
+            out.append(f"def {lname}DescramblerMask : Nat := {int_value(m.group(1), env)}")
+            out.append(f"def {lname}DescramblerSeed : Nat := {int_value(m.group(2), env)}")
+            out.append(f"def {lname}DescramblerLen : Nat := {int_value(m.group(3), env)}")
+        m = re.search(r"Hilbert::new\(\s*\w+\s*," + arg + "[,)]", main)
         if m:
-            out.append(f"def {lname}HilbertTaps : Nat := {m.group(1)}")
+            out.append(f"def {lname}HilbertTaps : Nat := {int_value(m.group(1), env)}")
     out += ["", "end RR.Gen", ""]
     return "E2e.lean", "\n".join(out)
 
 
-def inline_helpers(src, body, rounds=3):
+def inline_helpers(src, body, rounds=3, skip=()):
     """Textually inline the file's own free functions where `body` calls them (blocks may be added to the graph in
     private helpers): the helper's body is put in front of the call, in evaluation order."""
-    fns = {n: b[0] for n, b in all_fn_bodies(src).items() if len(b) == 1 and n != "main"}
+    fns = {n: b[0] for n, b in all_fn_bodies(src).items() if len(b) == 1 and n != "main" and n not in skip}
     for _ in range(rounds):
         changed = False
         for name, fb in fns.items():
-            pat = re.compile(r"(?<![A-Za-z0-9_:.!])%s\s*\(" % re.escape(name))
+            pat = re.compile(r"(?:(?<![A-Za-z0-9_:.!])|(?<=self\.)|(?<=Self::))%s\s*\(" % re.escape(name))
             pos = 0
             while True:
                 m = pat.search(body, pos)
